@@ -137,7 +137,7 @@ PROPS = {
                 "parallel-ECB objects: init -> live with exactly one allocator block; cleanup of live: wiped, freed exactly once, inert; "
                 "cleanup of NULL/zeroed/cleaned objects: empty frame; every other call on an inert object returns 0 with empty frame.",
         "assumptions": [COMPOSE, "closure over all interleavings of operations is induction over the per-operation contracts (meta)",
-                        "SIMD cleanup proved for the allocation layout 'aligned pointer == block base'"],
+                        "SIMD cleanup proved for the allocation layouts 'aligned pointer == block base' and '== block base + 16' (the two a 16-byte aligned calloc produces); other offsets by analogy"],
     },
     "C16": {
         "claimed": True,
@@ -151,7 +151,7 @@ PROPS = {
         "technique": "CBMC function contracts; free() redirected to a checker that asserts the context is all-zero when released",
         "text": "every cleanup function: for an arbitrary witness byte of the context, that byte is zero at the moment free() is called "
                 "(skinny_cleanse's own loop contract: every byte of [ptr, ptr+size) zero, nothing else written).",
-        "assumptions": [COMPOSE, "the +31 alignment slack of SIMD contexts never holds state (calloc-zero, never written)",
+        "assumptions": [COMPOSE, "the +31 alignment slack of SIMD contexts never holds state (calloc-zero, never written); SIMD cleanup proved for context offsets 0 and 16 inside the allocated block",
                         "compiler may not elide the volatile stores (C semantics of volatile; not checked on machine code)"],
     },
 }
